@@ -7,6 +7,7 @@ import (
 	"fmt"
 	"hash/fnv"
 	"strings"
+	"sync/atomic"
 	"testing"
 	"testing/synctest"
 	"time"
@@ -66,6 +67,7 @@ func Run(t *testing.T, cfg Cfg, body func(sim *simrt.Sim, root context.Context))
 				panic(r)
 			}
 			res.Hang = msg
+			atomic.AddInt64(&kit.LeakedBubbles, 1)
 			if sim != nil {
 				res.Blocked = sim.Blocked()
 				res.Crashes = sim.Crashes()
